@@ -23,6 +23,46 @@ pub enum Case15 {
     Patho { shape: String, n: usize, selectors: Vec<String>, cuts_every: usize },
     /// selector string described by (kind, depth) - may exhaust the stack
     DeepSelector { kind: String, depth: usize },
+    /// arbitrary byte pieces (hex; valid, split or malformed UTF-8) handed to `StreamingHandlerSink::write_utf8_chunk`
+    Utf8Chunks { pieces_hex: Vec<String>, html: bool, encoding: String },
+}
+
+/// `<p>x</p>` with a streaming append on p that writes `pieces` through write_utf8_chunk. Returns (per-call ok flags, output).
+pub fn run_utf8_chunks(pieces: &[Vec<u8>], html: bool, encoding: &str) -> Result<(Vec<bool>, Vec<u8>), String> {
+    use lol_html::html_content::{ContentType, Element, StreamingHandlerSink};
+    use std::sync::{Arc, Mutex};
+    let enc = encoding_rs::Encoding::for_label(encoding.as_bytes()).ok_or("encoding")?;
+    let flags: Arc<Mutex<Vec<bool>>> = Arc::new(Mutex::new(vec![]));
+    let f2 = flags.clone();
+    let pieces: Vec<Vec<u8>> = pieces.to_vec();
+    let mut out: Vec<u8> = vec![];
+    let r = std::panic::catch_unwind(std::panic::AssertUnwindSafe(|| {
+        let st = lol_html::Settings::new_send()
+            .with_encoding(lol_html::AsciiCompatibleEncoding::new(enc).unwrap())
+            .append_element_content_handler(lol_html::element!("p", move |el: &mut Element<'_, '_, lol_html::send::SendHandlerTypes>| {
+                let pieces = pieces.clone();
+                let f3 = f2.clone();
+                el.streaming_append(Box::new(move |sink: &mut StreamingHandlerSink<'_>| {
+                    let t = if html { ContentType::Html } else { ContentType::Text };
+                    for p in &pieces {
+                        f3.lock().unwrap().push(sink.write_utf8_chunk(p, t).is_ok());
+                    }
+                    Ok(())
+                }));
+                Ok(())
+            }));
+        let mut rw = lol_html::send::HtmlRewriter::new(st, |c: &[u8]| out.extend_from_slice(c));
+        let a = rw.write(b"<p>x</p>");
+        let b = if a.is_ok() { rw.end() } else { Ok(()) };
+        (a.is_ok(), b.is_ok())
+    }));
+    match r {
+        Err(p) => Err(format!("panic: {}", engine::panic_msg(&p))),
+        Ok(_) => {
+            let v = flags.lock().unwrap().clone();
+            Ok((v, out))
+        }
+    }
 }
 
 const CSS_TOKENS: &[&str] = &[
@@ -281,6 +321,31 @@ pub fn run_case(c: &Case15) -> Result<(), (String, String)> {
             }
         }
         Case15::Patho { shape, n, selectors, cuts_every } => run_patho(shape, *n, selectors, *cuts_every).map(|_| ()),
+        Case15::Utf8Chunks { pieces_hex, html, encoding } => {
+            let pieces: Vec<Vec<u8>> = pieces_hex.iter().map(|h| crate::core::unhex(h)).collect();
+            let whole: Vec<u8> = pieces.concat();
+            let ctx = |m: String| format!("{m}\n pieces: {pieces_hex:?} html={html} encoding={encoding}");
+            match run_utf8_chunks(&pieces, *html, encoding) {
+                Err(m) => Err(("panic".into(), ctx(format!("write_utf8_chunk: {m}")))),
+                Ok((flags, out)) => {
+                    // the semantic half: pieces that concatenate to valid UTF-8 are accepted and give what write_str(whole) gives
+                    if let Ok(sw) = std::str::from_utf8(&whole) {
+                        if flags.iter().any(|ok| !ok) {
+                            return Err(("valid-utf8-rejected".into(), ctx(format!("the pieces concatenate to valid UTF-8 {sw:?} but write_utf8_chunk returned an error (per call: {flags:?})"))));
+                        }
+                        let enc = encoding_rs::Encoding::for_label(encoding.as_bytes()).unwrap();
+                        let esc = if *html { sw.to_string() } else { sw.replace('&', "&amp;").replace('<', "&lt;").replace('>', "&gt;") };
+                        let mut exp = b"<p>x".to_vec();
+                        exp.extend(enc.encode(&esc).0.iter());
+                        exp.extend(b"</p>");
+                        if out != exp {
+                            return Err(("split-utf8-written-wrongly".into(), ctx(format!("output {} expected {}", show(&out), show(&exp)))));
+                        }
+                    }
+                    Ok(())
+                }
+            }
+        }
         Case15::DeepSelector { kind, depth } => {
             let s = deep_selector(kind, *depth);
             let r = std::panic::catch_unwind(|| {
@@ -304,9 +369,51 @@ pub fn run_case(c: &Case15) -> Result<(), (String, String)> {
 
 const BATCH: u64 = 500;
 
+/// a UTF-8 string, corrupted half of the time (stray continuation bytes, truncated or impossible lead bytes), cut into
+/// many small pieces (empty ones included)
+pub fn gen_utf8_chunks(rng: &mut Rng) -> Case15 {
+    let mut s = String::new();
+    for _ in 0..rng.range(1, 8) {
+        match rng.below(3) {
+            0 => s.push(*rng.pick(&['a', '<', '&', ' ', 'z'])),
+            _ => s.push(*rng.pick(gen::CHAR_POOL)),
+        }
+    }
+    let mut b = s.into_bytes();
+    if rng.bool() {
+        for _ in 0..rng.range(1, 4) {
+            let at = rng.below(b.len() + 1);
+            match rng.below(5) {
+                0 => {
+                    for _ in 0..rng.range(1, 6) {
+                        b.insert(at.min(b.len()), *rng.pick(&[0x80u8, 0x9f, 0xbf, 0xa0]));
+                    }
+                }
+                1 if !b.is_empty() => {
+                    b.remove(at.min(b.len() - 1));
+                }
+                2 => b.insert(at, *rng.pick(&[0xffu8, 0xc0, 0xc1, 0xf5, 0xf8, 0xed, 0xe0, 0xf0, 0xf4])),
+                3 => b.truncate(at),
+                _ => b.insert(at, *rng.pick(&[0xc3u8, 0xe2, 0xf0, 0xe2, 0x82])),
+            }
+        }
+    }
+    let mut pieces = vec![];
+    let mut at = 0;
+    while at < b.len() {
+        let n = rng.below(6).min(b.len() - at);
+        pieces.push(crate::core::hex(&b[at..at + n]));
+        at += n;
+    }
+    let encs = gen::ascii_compatible_encodings();
+    let enc = if rng.bool() { encoding_rs::UTF_8 } else { *rng.pick(&encs) };
+    Case15::Utf8Chunks { pieces_hex: pieces, html: rng.bool(), encoding: enc.name().to_string() }
+}
+
 fn gen_case(rng: &mut Rng) -> Case15 {
     match rng.below(10) {
         0 | 1 => Case15::Selector(gen_selector_string(rng)),
+        2 => gen_utf8_chunks(rng),
         _ => Case15::Rewrite(gen_rewrite_case(rng)),
     }
 }
@@ -342,6 +449,10 @@ pub fn worker_main(seed: u64, shard: u64, nbatches: u64, only_batch: Option<u64>
                     let (key, h) = match &c {
                         Case15::Rewrite(case) => ("rewrite_cases", if case.input().contains(&b'<') { Some(fnv(serde_json::to_string(case).unwrap().as_bytes())) } else { None }),
                         Case15::Selector(s) => ("selector_strings", Some(fnv(s.as_bytes()))),
+                        Case15::Utf8Chunks { pieces_hex, .. } => {
+                            let whole: Vec<u8> = pieces_hex.iter().flat_map(|h| crate::core::unhex(h)).collect();
+                            (if std::str::from_utf8(&whole).is_ok() { "utf8_chunk_histories_valid" } else { "utf8_chunk_histories_malformed" }, Some(fnv(serde_json::to_string(&c).unwrap().as_bytes())))
+                        }
                         _ => ("other", None),
                     };
                     *counters.entry(key.to_string()).or_insert(0) += 1;
@@ -422,7 +533,7 @@ impl Prop for C15 {
         "C15"
     }
     fn rule(&self) -> String {
-        "child-process workers (so aborts and stack overflows are observed, not fatal): random / soup / mutated / repeated inputs x 36 encodings x settings matrix (strict, esi, meta charset, small memory limits, graceful flags, bail-out handlers, send types) x observer and mutating handlers with arbitrary argument strings for every setter x selector strings from a CSS token alphabet (Selector::from_str must return Ok or Err) - any panic, internal error or dead worker is a violation; pathological inputs (10^5-deep nesting, 10^6-byte tokens, 10^4 attributes, 10^3 selectors) run in their own process with a linearity test on thread CPU time at sizes n,2n,4n,8n; selector strings with deep :not() nesting and long combinator chains each in their own process; builds: dbg (debug assertions + overflow checks), rel, asan (thorough); non-trivial: distinct inputs by hash that contain markup (or distinct selector strings)".into()
+        "child-process workers (so aborts and stack overflows are observed, not fatal): random / soup / mutated / repeated inputs x 36 encodings x settings matrix (strict, esi, meta charset, small memory limits, graceful flags, bail-out handlers, send types) x observer and mutating handlers with arbitrary argument strings for every setter x selector strings from a CSS token alphabet (Selector::from_str must return Ok or Err) x byte-piece histories (valid, split inside a character, malformed, empty pieces) handed to StreamingHandlerSink::write_utf8_chunk (Ok or Utf8Error per call; pieces that concatenate to valid UTF-8 must give what write_str gives) - any panic, internal error or dead worker is a violation; pathological inputs (10^5-deep nesting, 10^6-byte tokens, 10^4 attributes, 10^3 selectors) run in their own process with a linearity test on thread CPU time at sizes n,2n,4n,8n; selector strings with deep :not() nesting and long combinator chains each in their own process; builds: dbg (debug assertions + overflow checks), rel, asan (thorough); non-trivial: distinct inputs by hash that contain markup (or distinct selector strings)".into()
     }
     fn assumptions(&self) -> Vec<String> {
         vec![
